@@ -9,8 +9,18 @@ The model (`SquidModel.Rock.rebuild`) follows src/fs/rock/RockRebuild.cc functio
 raw slots (any header fields, any metadata parser results), of any length; all eight combinations of the three
 source-shape flags (`Variant`) are covered, the staged tree's own shape is `currentVariant`.
 
-Proved for every image and every variant:
+Proved for every image and every variant (`hk : 0 < entryLimitAbsolute` is the compile-time fact SwapFilenMax+1 > 0,
+`current_consts_ok`):
 * `rebuild_terminates`            the three link-following loops never exhaust their fuel (= number of slots + 1);
+* `rebuild_crash_classes`         if the rebuild dies, it dies in one of exactly four ways, each of which has a witness
+                                  below: the two all-ones size assertions, a slot pushed on the free stack twice, an
+                                  unprocessed slot under squid -S.  Every other assert / uncaught Must the rebuild can
+                                  reach (13 sites in RockRebuild.cc, StoreMap.cc, PageStack.cc) is unreachable;
+* `no_stolen_slot_crash_partial`  EXCLUDED REGION as hypothesis `Own`: then neither the double push nor the -S crash;
+* `no_all_ones_crash_fixed`       the variant that refuses all-ones sizes never trips the two size assertions;
+* `repaired_rebuild_never_crashes`, `repaired_source_satisfies_property`
+                                  with the three candidate repairs (notes/fixes/C57-*.diff) the statement holds at full
+                                  strength for every image: the rebuild completes, every readable entry is intact;
 * `readable_entries_intact`       every readable entry has a non-empty, duplicate-free (acyclic) slice chain inside
                                   the db that ends with -1, and its sizes add up to swap_file_sz -- or to less, which
                                   only the variant without the size check in finalizeOrThrow permits;
@@ -36,56 +46,130 @@ import SquidModel.Rock.Config
 namespace SquidModel.C57
 open SquidModel.Rock
 
+/-- the constants of the staged build satisfy the side condition of the theorems -/
+theorem current_consts_ok : 0 < currentConsts.entryLimitAbsolute := by decide
+
 /-- rebuilding terminates: no loop of the model runs out of its fuel, whatever the image and the variant -/
-theorem rebuild_terminates (cfg : Cfg) (img : List RawSlot) : rebuild cfg img ≠ .error .outOfFuel :=
-  (rebuild_sat cfg img).ne_fuel
+theorem rebuild_terminates (cfg : Cfg) (hk : 0 < cfg.k.entryLimitAbsolute) (img : List RawSlot) :
+    rebuild cfg img ≠ .error .outOfFuel :=
+  (rebuild_sat (A := Allow.all) cfg hk img (Or.inl rfl) (Or.inl rfl) (Or.inl rfl)).ne_fuel
+
+/-- full statement (false of the pinned source): "rebuilding never crashes".  What holds for every image and variant:
+    a crash is one of the four classes exhibited by the counterexample theorems below; all other assertions and
+    uncaught exceptions of the modelled code are unreachable. -/
+theorem rebuild_crash_classes (cfg : Cfg) (hk : 0 < cfg.k.entryLimitAbsolute) (img : List RawSlot) (e : Crash)
+    (h : rebuild cfg img = .error e) :
+    e = .entrySizeAllOnes ∨ e = .sfsAllOnes ∨ e = .pushedTwice ∨ e = .unprocessedSlot := by
+  have ha := (rebuild_sat (A := Allow.all) cfg hk img (Or.inl rfl) (Or.inl rfl) (Or.inl rfl)).of_error h
+  cases e <;> simp [allowed, Allow.all] at ha ⊢
+
+/-- full statement of the crash part for the stolen slot (false of the pinned source: `double_free_crash`,
+    `unprocessed_slot_crash`): under `Own` no slot is pushed on the free-slot stack twice and, with squid -S, no slot is
+    left unprocessed -/
+theorem no_stolen_slot_crash_partial (cfg : Cfg) (hk : 0 < cfg.k.entryLimitAbsolute) (img : List RawSlot) (ho : Own cfg img) :
+    rebuild cfg img ≠ .error .pushedTwice ∧ rebuild cfg img ≠ .error .unprocessedSlot := by
+  have hs := rebuild_sat (A := { allOnes := true, pushed := false, unprocessed := false }) cfg hk img (Or.inr ho)
+    (Or.inl rfl) (Or.inr (Or.inr ho))
+  constructor <;> intro h <;> have ha := hs.of_error h <;> simp [allowed] at ha
+
+/-- the variant that refuses all-ones sizes never trips the two size assertions -/
+theorem no_all_ones_crash_fixed (cfg : Cfg) (hk : 0 < cfg.k.entryLimitAbsolute) (hv : cfg.v.rejectsAllOnesSizes = true)
+    (img : List RawSlot) : rebuild cfg img ≠ .error .entrySizeAllOnes ∧ rebuild cfg img ≠ .error .sfsAllOnes := by
+  have hs := rebuild_sat (A := { allOnes := false, pushed := true, unprocessed := true }) cfg hk img (Or.inl rfl)
+    (Or.inr hv) (Or.inl rfl)
+  constructor <;> intro h <;> have ha := hs.of_error h <;> simp [allowed] at ha
+
+/-- FULL STRENGTH for the repaired source: with the three candidate repairs (notes/fixes/C57-*.diff) the rebuild
+    survives every db image, with or without squid -S -/
+theorem repaired_rebuild_never_crashes (cfg : Cfg) (hk : 0 < cfg.k.entryLimitAbsolute) (hv : cfg.v = fixedVariant)
+    (img : List RawSlot) : ∃ st, rebuild cfg img = .ok st := by
+  have ho : Own cfg img := Or.inl (by rw [hv]; rfl)
+  have h := rebuild_sat (A := { allOnes := false, pushed := false, unprocessed := false }) cfg hk img
+    (Or.inr ho) (Or.inr (by rw [hv]; rfl)) (Or.inr (Or.inr ho))
+  cases hr : rebuild cfg img with
+  | ok st => exact ⟨st, rfl⟩
+  | error e =>
+    have ha := h.of_error hr
+    cases e <;> simp [allowed] at ha
 
 /-- every entry a completed rebuild leaves readable has a complete, acyclic chain inside the db whose sizes add up
     to the entry size (or, without the size check in finalizeOrThrow, to less than the declared entry size) -/
-theorem readable_entries_intact (cfg : Cfg) (img : List RawSlot) (st : St) (h : rebuild cfg img = .ok st)
+theorem readable_entries_intact (cfg : Cfg) (hk : 0 < cfg.k.entryLimitAbsolute) (img : List RawSlot) (st : St) (h : rebuild cfg img = .ok st)
     (f : Nat) (hr : Readable st f) :
     ∃ C : List Int, Chain st.next (st.an f).start C ∧ C ≠ [] ∧ C.Nodup ∧ (∀ x ∈ C, 0 ≤ x ∧ x < (img.length : Int)) ∧
       (sumOn st.ssize C = (st.an f).sfs ∨
         (cfg.v.finalizeChecksKnownSize = false ∧ sumOn st.ssize C < (st.an f).sfs)) := by
-  have hinv := (rebuild_sat cfg img).of_ok h
+  have hinv := ((rebuild_sat (A := Allow.all) cfg hk img (Or.inl rfl) (Or.inl rfl) (Or.inl rfl)).of_ok h).core
   obtain ⟨C, hC⟩ := Inv.intact (n := img.length) hinv hr
   exact ⟨C, hC.chain, hC.nonempty, hC.nodup, hC.range, hC.size⟩
 
 /-- with the size check the sizes always add up to swap_file_sz -/
-theorem readable_size_exact (cfg : Cfg) (hv : cfg.v.finalizeChecksKnownSize = true) (img : List RawSlot) (st : St)
+theorem readable_size_exact (cfg : Cfg) (hk : 0 < cfg.k.entryLimitAbsolute) (hv : cfg.v.finalizeChecksKnownSize = true) (img : List RawSlot) (st : St)
     (h : rebuild cfg img = .ok st) (f : Nat) (hr : Readable st f) :
     ∃ C : List Int, Chain st.next (st.an f).start C ∧ sumOn st.ssize C = (st.an f).sfs := by
-  obtain ⟨C, hc, _, _, _, hs⟩ := readable_entries_intact cfg img st h f hr
+  obtain ⟨C, hc, _, _, _, hs⟩ := readable_entries_intact cfg hk img st h f hr
   refine ⟨C, hc, ?_⟩
   cases hs with
   | inl e => exact e
   | inr e => rw [hv] at e; cases e.1
 
 /-- no slot is used by two readable entries -/
-theorem readable_chains_disjoint (cfg : Cfg) (img : List RawSlot) (st : St) (h : rebuild cfg img = .ok st)
+theorem readable_chains_disjoint (cfg : Cfg) (hk : 0 < cfg.k.entryLimitAbsolute) (img : List RawSlot) (st : St) (h : rebuild cfg img = .ok st)
     (f g : Nat) (hf : Readable st f) (hg : Readable st g) (hfg : f ≠ g) (Cf Cg : List Int)
     (hcf : Chain st.next (st.an f).start Cf) (hcg : Chain st.next (st.an g).start Cg) : ∀ x ∈ Cf, x ∉ Cg :=
-  Inv.disjoint (n := img.length) ((rebuild_sat cfg img).of_ok h) hf hg hfg hcf hcg
+  Inv.disjoint (n := img.length) ((rebuild_sat (A := Allow.all) cfg hk img (Or.inl rfl) (Or.inl rfl) (Or.inl rfl)).of_ok h).core hf hg hfg hcf hcg
 
 /-- every slice of a readable chain is what the db cell at that position says -/
-theorem readable_chain_matches_disk (cfg : Cfg) (img : List RawSlot) (st : St) (h : rebuild cfg img = .ok st)
+theorem readable_chain_matches_disk (cfg : Cfg) (hk : 0 < cfg.k.entryLimitAbsolute) (img : List RawSlot) (st : St) (h : rebuild cfg img = .ok st)
     (f : Nat) (hr : Readable st f) (C : List Int) (hc : Chain st.next (st.an f).start C) :
     ∀ x ∈ C, ∃ hd, usableAt cfg img x = some hd ∧ (st.sl x).size = hd.payloadSize ∧ (st.sl x).next = hd.nextSlot :=
-  Inv.matches_disk (n := img.length) ((rebuild_sat cfg img).of_ok h) hr hc
+  Inv.matches_disk (n := img.length) ((rebuild_sat (A := Allow.all) cfg hk img (Or.inl rfl) (Or.inl rfl) (Or.inl rfl)).of_ok h).core hr hc
 
 /-- full statement (false of the pinned source, see `stolen_slot_counterexample`): "no slot of a readable chain belongs
     to another entry or is on the free-slot stack".  Proved under `Own cfg img`: finalizeOrThrow checks slot owners, or
     no nextSlot link of the image leaves the entry position of the cell that carries it. -/
-theorem readable_chain_own_slots_partial (cfg : Cfg) (img : List RawSlot) (ho : Own cfg img) (st : St)
+theorem readable_chain_own_slots_partial (cfg : Cfg) (hk : 0 < cfg.k.entryLimitAbsolute) (img : List RawSlot) (ho : Own cfg img) (st : St)
     (h : rebuild cfg img = .ok st) (f : Nat) (hr : Readable st f) (C : List Int) (hc : Chain st.next (st.an f).start C) :
     ∀ x ∈ C, x ∉ st.free ∧ (st.ls x).freed = false ∧ ∃ hd, usableAt cfg img x = some hd ∧ fileOf cfg img hd = f :=
-  Inv.own_slots (n := img.length) ((rebuild_sat cfg img).of_ok h) ho hr hc
+  Inv.own_slots (n := img.length) ((rebuild_sat (A := Allow.all) cfg hk img (Or.inl rfl) (Or.inl rfl) (Or.inl rfl)).of_ok h).core ho hr hc
 
 /-- the owner-checking variant satisfies it for every image -/
-theorem readable_chain_own_slots_fixed (cfg : Cfg) (hv : cfg.v.finalizeChecksOwner = true) (img : List RawSlot) (st : St)
+theorem readable_chain_own_slots_fixed (cfg : Cfg) (hk : 0 < cfg.k.entryLimitAbsolute) (hv : cfg.v.finalizeChecksOwner = true) (img : List RawSlot) (st : St)
     (h : rebuild cfg img = .ok st) (f : Nat) (hr : Readable st f) (C : List Int) (hc : Chain st.next (st.an f).start C) :
     ∀ x ∈ C, x ∉ st.free ∧ (st.ls x).freed = false ∧ ∃ hd, usableAt cfg img x = some hd ∧ fileOf cfg img hd = f :=
-  readable_chain_own_slots_partial cfg img (Or.inl hv) st h f hr C hc
+  readable_chain_own_slots_partial cfg hk img (Or.inl hv) st h f hr C hc
+
+/-- HEADLINE: the property at full strength for the repaired source (all three candidate repairs), for every db image:
+    the rebuild completes, and every entry it makes readable has a non-empty, acyclic chain inside the db that ends
+    with -1, whose slices are exactly the db cells of that very entry, none of them freed or on the free-slot stack,
+    with sizes adding up to the entry size; chains of different readable entries are disjoint. -/
+theorem repaired_source_satisfies_property (cfg : Cfg) (hk : 0 < cfg.k.entryLimitAbsolute) (hv : cfg.v = fixedVariant)
+    (img : List RawSlot) :
+    ∃ st, rebuild cfg img = .ok st ∧
+      (∀ f, Readable st f → ∃ C : List Int, Chain st.next (st.an f).start C ∧ C ≠ [] ∧ C.Nodup ∧
+        (∀ x ∈ C, 0 ≤ x ∧ x < (img.length : Int)) ∧ sumOn st.ssize C = (st.an f).sfs ∧
+        (∀ x ∈ C, x ∉ st.free ∧ (st.ls x).freed = false ∧
+          ∃ hd, usableAt cfg img x = some hd ∧ fileOf cfg img hd = f ∧
+            (st.sl x).size = hd.payloadSize ∧ (st.sl x).next = hd.nextSlot)) ∧
+      (∀ f g, Readable st f → Readable st g → f ≠ g → ∀ Cf Cg, Chain st.next (st.an f).start Cf →
+        Chain st.next (st.an g).start Cg → ∀ x ∈ Cf, x ∉ Cg) := by
+  obtain ⟨st, hst⟩ := repaired_rebuild_never_crashes cfg hk hv img
+  refine ⟨st, hst, ?_, ?_⟩
+  · intro f hr
+    obtain ⟨C, hc, hne, hnd, hrng, hsz⟩ := readable_entries_intact cfg hk img st hst f hr
+    refine ⟨C, hc, hne, hnd, hrng, ?_, ?_⟩
+    · cases hsz with
+      | inl e => exact e
+      | inr e => rw [hv] at e; cases e.1
+    · intro x hx
+      obtain ⟨a, b, hd, hu, hfile⟩ := readable_chain_own_slots_fixed cfg hk (by rw [hv]; rfl) img st hst f hr C hc x hx
+      obtain ⟨hd', hu', hs1, hs2⟩ := readable_chain_matches_disk cfg hk img st hst f hr C hc x hx
+      rw [hu] at hu'
+      simp only [Option.some.injEq] at hu'
+      subst hu'
+      exact ⟨a, b, hd, hu, hfile, hs1, hs2⟩
+  · intro f g hf hg hfg Cf Cg hcf hcg
+    exact readable_chains_disjoint cfg hk img st hst f g hf hg hfg Cf Cg hcf hcg
 
 /-! ### witnesses -/
 
